@@ -174,6 +174,107 @@ fn data_list_case(rng: &mut Rng, acc: &mut Acc) {
     }
 }
 
+/// Loads and stores that name a label (`lw rd, label`, `sw rs, label, tmp`) against their written-out
+/// expansions (`la rd, label` / `lw rd, 0(rd)`; `la tmp, label` / `sw rs, 0(tmp)`): the same diagnostics on the
+/// same logical statements.
+fn label_memory_case(rng: &mut Rng, acc: &mut Acc) {
+    // statements: (pseudo text, expansion lines)
+    let temps = ["t0", "t1", "t2", "t3", "t4", "t5", "t6"];
+    let pick2 = |rng: &mut Rng| -> (&'static str, &'static str) {
+        let a = rng.below(temps.len());
+        let b = (a + 1 + rng.below(temps.len() - 1)) % temps.len();
+        (temps[a], temps[b])
+    };
+    let mut stmts: Vec<(String, Vec<String>)> = Vec::new();
+    let plain = |t: &str| (t.to_string(), vec![t.to_string()]);
+    stmts.push(plain("main:"));
+    for _ in 0..2 + rng.below(4) {
+        let (v, tmp) = pick2(rng);
+        let w = *rng.pick(&["w", "h", "b"]);
+        match rng.below(5) {
+            0 => {
+                // a value that is produced and stored
+                stmts.push(plain(&format!("li {v}, {}", rng.range(1, 90))));
+                stmts.push((format!("s{w} {v}, cell, {tmp}"), vec![format!("la {tmp}, cell"), format!("s{w} {v}, 0({tmp})")]));
+            }
+            1 => {
+                // a store of a register that was never assigned
+                stmts.push((format!("s{w} {v}, cell, {tmp}"), vec![format!("la {tmp}, cell"), format!("s{w} {v}, 0({tmp})")]));
+            }
+            2 => {
+                // a load that is used
+                stmts.push((format!("l{w} a0, cell"), vec!["la a0, cell".to_string(), format!("l{w} a0, 0(a0)")]));
+                stmts.push(plain("li a7, 1"));
+                stmts.push(plain("ecall"));
+            }
+            3 => {
+                // a load nobody uses
+                stmts.push((format!("l{w} {v}, cell"), vec![format!("la {v}, cell"), format!("l{w} {v}, 0({v})")]));
+            }
+            _ => {
+                // a value kept across an ecall and stored afterwards
+                stmts.push(plain(&format!("li {v}, 3")));
+                stmts.push(plain("li a0, 4"));
+                stmts.push(plain("li a7, 1"));
+                stmts.push(plain("ecall"));
+                stmts.push((format!("sw {v}, cell, {tmp}"), vec![format!("la {tmp}, cell"), format!("sw {v}, 0({tmp})")]));
+            }
+        }
+    }
+    stmts.push(plain("li a7, 10"));
+    stmts.push(plain("ecall"));
+    let render = |expand: &dyn Fn(usize) -> bool| -> (String, Vec<usize>) {
+        let mut out = vec!["# loads and stores that name a label".to_string()];
+        let mut owner = vec![usize::MAX];
+        for (k, (pseudo, exp)) in stmts.iter().enumerate() {
+            let ls: Vec<String> = if expand(k) { exp.clone() } else { vec![pseudo.clone()] };
+            for l in ls {
+                out.push(if l.ends_with(':') { l } else { format!("    {l}") });
+                owner.push(k);
+            }
+        }
+        out.push(".data".into());
+        owner.push(usize::MAX);
+        out.push("cell: .word 0".into());
+        owner.push(usize::MAX);
+        (out.join("\n") + "\n", owner)
+    };
+    let keys = |text: &str, owner: &[usize]| -> Result<std::collections::BTreeSet<(String, usize)>, String> {
+        let a = analyze(text).map_err(|e| format!("{} {}", e.site(), e.msg))?;
+        Ok(a.all_diags().iter().map(|d| (if d.code.is_empty() { d.title.clone() } else { d.code.clone() }, owner.get(d.span.start.line).copied().unwrap_or(usize::MAX))).collect())
+    };
+    let (t0, o0) = render(&|_| false);
+    let Ok(k0) = keys(&t0, &o0) else { return };
+    acc.count("base_diagnostics", k0.len() as u64);
+    let mask = rng.next_u32();
+    let variants: [(&str, Box<dyn Fn(usize) -> bool>); 2] = [("all-expanded", Box::new(|_| true)), ("some-expanded", Box::new(move |k| mask >> (k % 32) & 1 == 1))];
+    for (name, f) in &variants {
+        let (t1, o1) = render(f.as_ref());
+        if t1 == t0 {
+            continue;
+        }
+        acc.evaluations += 1;
+        acc.count("label_memory_pairs", 1);
+        acc.nontrivial.insert(hash64(&t1));
+        match keys(&t1, &o1) {
+            Err(e) => acc.violation("C13|label-memory|panic".to_string(), format!("the expanded spelling makes the analysis panic: {e}"), json!({"base": t0, "rewritten": t1})),
+            Ok(k1) => {
+                if k0 == k1 {
+                    acc.count("pairs_equal", 1);
+                } else {
+                    let d = k0.symmetric_difference(&k1).next().cloned().unwrap_or_default();
+                    let dir = if k1.contains(&d) { "gained" } else { "lost" };
+                    acc.violation(
+                        format!("C13|label-memory|{dir}|{}", d.0),
+                        format!("a load / store that names a label, written out as la + access ({name}): `{}` on statement {} `{}` is {dir}", d.0, d.1, stmts.get(d.1).map(|s| s.0.as_str()).unwrap_or("?")),
+                        json!({"base": t0, "rewritten": t1}),
+                    );
+                }
+            }
+        }
+    }
+}
+
 fn li_expansion_case(rng: &mut Rng, acc: &mut Acc) {
     let stmts = li_family(rng);
     // build one variant: `expand(k)` says whether the k-th Li is written as lui (+ addi)
@@ -361,6 +462,14 @@ pub fn run(ctx: &Ctx) -> i32 {
         data_list_case(&mut rng, &mut acc);
     }
     rep.acc.merge(acc);
+    // ---- loads / stores that name a label against their expansions
+    let mut acc = Acc::new();
+    let mut rng = Rng::derive(ctx.seed, 13_700, 0);
+    for _ in 0..ctx.tier.pick(150, 3000) {
+        label_memory_case(&mut rng, &mut acc);
+    }
+    rep.acc.merge(acc);
+    rep.require("label_memory_pairs", 100);
     rep.require("data_list_pairs", 100);
     rep.require("li_expansion_pairs", 100);
     rep.require("pairs_equal", 500);
